@@ -8,7 +8,44 @@ persistence model A-FS (see DESIGN.md 3.6).
 """
 import errno
 import io
+import os as _os
 import posixpath
+import stat as stat_mod
+
+# Names the code under test asked this stand-in for and it does not have.  A run that hit one is a harness error
+# (the simulator, not the code, is incomplete), never a verdict: sim/runner.py checks this list after every run.
+UNSUPPORTED = []
+
+
+class _DirEntry:
+    def __init__(self, simos, name, path):
+        self._os, self.name, self.path = simos, name, path
+
+    def is_dir(self, **k):
+        return posixpath.normpath(self.path) in self._os.fs.dirs
+
+    def is_file(self, **k):
+        return posixpath.normpath(self.path) in self._os.fs.files
+
+    def is_symlink(self):
+        return False
+
+    def stat(self, **k):
+        return self._os.stat(self.path)
+
+    def __fspath__(self):
+        return self.path
+
+
+class _ScanDir(list):
+    def __enter__(self):
+        return self
+
+    def __exit__(self, *a):
+        return False
+
+    def close(self):
+        pass
 
 
 class SimRaw(io.RawIOBase):
@@ -19,6 +56,7 @@ class SimRaw(io.RawIOBase):
         self.mode = mode
         self.fd = fd
         self.pos = 0
+        self.append = False
         self.orphan = None       # content of an unlinked-while-open file (POSIX: the handle keeps its inode)
 
     def readable(self):
@@ -28,11 +66,9 @@ class SimRaw(io.RawIOBase):
         return self.mode in ("w", "rw")
 
     def seekable(self):
-        return self.mode == "rw"
+        return True
 
     def seek(self, offset, whence=0):
-        if self.mode != "rw":
-            raise io.UnsupportedOperation("seek")
         data = self.orphan if self.orphan is not None else self.fs.files.get(self.path, b"")
         base = {0: 0, 1: self.pos, 2: len(data)}[whence]
         self.pos = max(0, base + offset)
@@ -57,11 +93,39 @@ class SimRaw(io.RawIOBase):
         fs.trace.append(("read", self.path, n))
         return n
 
+    def truncate(self, size=None):
+        """ftruncate: cut (or zero-extend) the file at `size` (default: the current position)."""
+        fs = self.fs
+        if not self.writable():
+            raise io.UnsupportedOperation("truncate")
+        fs._y("ftruncate")
+        n = self.pos if size is None else size
+        fs._fault("write", self.path)
+        target = self.orphan if self.orphan is not None else fs.files.get(self.path)
+        if target is None:
+            raise OSError(errno.EIO, "file vanished")
+        if n <= len(target):
+            del target[n:]
+        else:
+            target.extend(b"\0" * (n - len(target)))
+        if self.orphan is None:
+            fs.trace.append(("ftrunc", self.path, n))
+            fs._touch(self.path)
+        return n
+
     def write(self, b):
         fs = self.fs
         fs._y("write")
         data = bytes(b)
         fs._fault("write", self.path)
+        if self.append and self.orphan is None and self.path in fs.files:
+            self.pos = len(fs.files[self.path])         # O_APPEND: every write goes to the current end
+        if fs.short_write_hook is not None and len(data) > 1:
+            # a short write(2): the kernel takes only part of the buffer (disk nearly full, quota, signal); the caller
+            # must look at the count and write the rest - io.BufferedWriter does
+            k = fs.short_write_hook(self.path, len(data))
+            if k is not None and 0 < k < len(data):
+                data = data[:k]
         if self.orphan is not None:
             # the name was removed while this handle was open: the bytes go to an inode no name refers to any more
             self.orphan[self.pos:self.pos + len(data)] = data
@@ -71,8 +135,11 @@ class SimRaw(io.RawIOBase):
         f = fs.files.get(self.path)
         if f is None:
             raise OSError(errno.EIO, "file vanished")
+        if self.pos > len(f):
+            f.extend(b"\0" * (self.pos - len(f)))       # a hole
         f[self.pos:self.pos + len(data)] = data
         fs.trace.append(("write", self.path, self.pos, data))
+        fs._touch(self.path)
         self.pos += len(data)
         return len(data)
 
@@ -83,6 +150,7 @@ class SimRaw(io.RawIOBase):
                 super().close()
             finally:
                 fs.fds.pop(self.fd, None)
+                fs.rawfds.pop(self.fd, None)
                 fs.trace.append(("close", self.path))
                 fs._y("close", teardown_ok=True)
 
@@ -111,6 +179,35 @@ class SimPath:
     def isfile(self, path):
         return posixpath.normpath(path) in self.fs.files
 
+    def lexists(self, path):
+        return self.exists(path)
+
+    def islink(self, path):
+        return False
+
+    def realpath(self, path, **k):
+        return posixpath.normpath(posixpath.join("/", path))
+
+    def abspath(self, path):
+        return posixpath.normpath(posixpath.join("/", path))
+
+    def getmtime(self, path):
+        return self.fs.os.stat(path).st_mtime
+
+    getatime = getctime = getmtime
+
+    def samefile(self, a, b):
+        self.fs.os.stat(a), self.fs.os.stat(b)
+        return posixpath.normpath(a) == posixpath.normpath(b)
+
+    def __getattr__(self, name):
+        # pure string functions of os.path (split, splitext, isabs, relpath, commonpath, ...)
+        if name in ("split", "splitext", "isabs", "relpath", "commonpath", "commonprefix", "expanduser", "expandvars",
+                    "normcase", "splitdrive", "curdir", "pardir", "extsep", "altsep", "pathsep", "devnull"):
+            return getattr(posixpath, name)
+        UNSUPPORTED.append(f"os.path.{name}")
+        raise AttributeError(f"SimPath lacks os.path.{name}")
+
     def getsize(self, path):
         fs = self.fs
         fs._y("getsize")
@@ -136,6 +233,147 @@ class SimOS:
 
     def getcwd(self):
         return "/"
+
+    O_RDONLY, O_WRONLY, O_RDWR, O_CREAT, O_EXCL, O_TRUNC, O_APPEND = (_os.O_RDONLY, _os.O_WRONLY, _os.O_RDWR, _os.O_CREAT,
+                                                                      _os.O_EXCL, _os.O_TRUNC, _os.O_APPEND)
+    O_SYNC, O_DSYNC, O_CLOEXEC, O_DIRECTORY = _os.O_SYNC, _os.O_DSYNC, _os.O_CLOEXEC, _os.O_DIRECTORY
+    SEEK_SET, SEEK_CUR, SEEK_END = 0, 1, 2
+    F_OK, R_OK, W_OK, X_OK = 0, 4, 2, 1
+    _PURE = ("fspath", "linesep", "curdir", "pardir", "extsep", "altsep", "pathsep", "devnull", "name", "environ", "getenv",
+             "getpid", "strerror", "error", "PathLike", "cpu_count", "fsencode", "fsdecode", "get_terminal_size")
+
+    def __getattr__(self, name):
+        if name in SimOS._PURE:
+            return getattr(_os, name)
+        UNSUPPORTED.append(f"os.{name}")
+        raise AttributeError(f"SimOS lacks os.{name}")
+
+    # ---- metadata
+    def stat(self, path, **k):
+        fs = self.fs
+        fs._y("stat")
+        p = posixpath.normpath(path)
+        if isinstance(path, int):
+            return self.fstat(path)
+        if p in fs.files:
+            mode, size = stat_mod.S_IFREG | 0o644, len(fs.files[p])
+        elif p in fs.dirs:
+            mode, size = stat_mod.S_IFDIR | 0o755, 4096
+        else:
+            fs._enotdir(p, path)
+            raise FileNotFoundError(errno.ENOENT, "No such file or directory", path)
+        if len(posixpath.basename(p).encode("utf-8", "surrogateescape")) > 255:
+            raise OSError(errno.ENAMETOOLONG, "File name too long", path)
+        fs.trace.append(("stat", p, size))
+        t = fs.mtimes.get(p, 0)
+        return _os.stat_result((mode, abs(hash(p)) % (1 << 30), 1, 1, 0, 0, size, t, t, t))
+
+    lstat = stat
+
+    def fstat(self, fd):
+        p = self.fs.fds.get(fd)
+        if p is None:
+            raise OSError(errno.EBADF, "Bad file descriptor")
+        raw = self.fs.rawfds.get(fd)
+        if raw is not None and raw.orphan is not None:
+            return _os.stat_result((stat_mod.S_IFREG | 0o644, 0, 1, 0, 0, 0, len(raw.orphan), 0, 0, 0))
+        return self.stat(p)
+
+    def access(self, path, mode, **k):
+        p = posixpath.normpath(path)
+        return p in self.fs.files or p in self.fs.dirs
+
+    def mkdir(self, path, mode=0o777):
+        fs = self.fs
+        p = posixpath.normpath(path)
+        fs._y("makedirs")
+        if p in fs.files or p in fs.dirs:
+            raise FileExistsError(errno.EEXIST, "File exists", path)
+        parent = posixpath.dirname(p)
+        if parent not in fs.dirs:
+            fs._enotdir(p, path)
+            raise FileNotFoundError(errno.ENOENT, "No such file or directory", path)
+        fs._fault("mkdir", p)
+        fs.dirs.add(p)
+        fs.trace.append(("mkdir", p))
+
+    def rmdir(self, path):
+        fs = self.fs
+        p = posixpath.normpath(path)
+        fs._y("rmdir")
+        if p not in fs.dirs:
+            if p in fs.files:
+                raise NotADirectoryError(errno.ENOTDIR, "Not a directory", path)
+            fs._enotdir(p, path)
+            raise FileNotFoundError(errno.ENOENT, "No such file or directory", path)
+        if self.listdir(p):
+            raise OSError(errno.ENOTEMPTY, "Directory not empty", path)
+        fs.dirs.discard(p)
+        fs.trace.append(("rmdir", p))
+
+    def scandir(self, path="/"):
+        base = posixpath.normpath(path)
+        return _ScanDir([_DirEntry(self, n, posixpath.join(base, n)) for n in self.listdir(path)])
+
+    def truncate(self, path, length):
+        if isinstance(path, int):
+            return self.ftruncate(path, length)
+        with self.fs.open(path, "r+b", buffering=0) as raw:
+            raw.truncate(length)
+
+    # ---- descriptor-level I/O (os.open / os.write / ...)
+    def open(self, path, flags, mode=0o777, **k):
+        acc = flags & 3
+        kind = "r"
+        if flags & _os.O_CREAT:
+            kind = "x" if flags & _os.O_EXCL else ("w" if flags & _os.O_TRUNC else "c")
+        elif flags & _os.O_TRUNC:
+            kind = "t"
+        raw = self.fs._open_raw(path, kind, readable=(acc != _os.O_WRONLY), writable=(acc != _os.O_RDONLY),
+                                append=bool(flags & _os.O_APPEND))
+        return raw.fd
+
+    def _raw(self, fd):
+        raw = self.fs.rawfds.get(fd)
+        if raw is None or raw.closed:
+            raise OSError(errno.EBADF, "Bad file descriptor")
+        return raw
+
+    def write(self, fd, data):
+        return self._raw(fd).write(data)
+
+    def read(self, fd, n):
+        b = bytearray(n)
+        k = self._raw(fd).readinto(b)
+        return bytes(b[:k])
+
+    def pwrite(self, fd, data, offset):
+        raw = self._raw(fd)
+        old, raw.pos = raw.pos, offset
+        try:
+            return raw.write(data)
+        finally:
+            raw.pos = old
+
+    def pread(self, fd, n, offset):
+        raw = self._raw(fd)
+        old, raw.pos = raw.pos, offset
+        try:
+            return self.read(fd, n)
+        finally:
+            raw.pos = old
+
+    def lseek(self, fd, pos, how):
+        return self._raw(fd).seek(pos, how)
+
+    def ftruncate(self, fd, length):
+        self._raw(fd).truncate(length)
+
+    def close(self, fd):
+        self._raw(fd).close()
+
+    def fdopen(self, fd, mode="r", buffering=-1, encoding=None, errors=None, newline=None, **k):
+        return self.fs._wrap(self._raw(fd), mode, buffering, encoding, errors, newline)
 
     def makedirs(self, path, mode=0o777, exist_ok=False):
         fs = self.fs
@@ -176,14 +414,45 @@ class SimOS:
         fs = self.fs
         fs._y("rename")
         s, d = posixpath.normpath(src), posixpath.normpath(dst)
+        if s in fs.dirs:
+            # a directory: the whole subtree moves (the destination must be absent or an empty directory)
+            if d in fs.files:
+                raise NotADirectoryError(errno.ENOTDIR, "Not a directory", dst)
+            if d in fs.dirs and self.listdir(d):
+                raise OSError(errno.ENOTEMPTY, "Directory not empty", dst)
+            if posixpath.dirname(d) not in fs.dirs:
+                fs._enotdir(d, dst)
+                raise FileNotFoundError(errno.ENOENT, "No such file or directory", dst)
+            if d == s or d.startswith(s + "/"):
+                if d == s:
+                    return
+                raise OSError(errno.EINVAL, "Invalid argument", dst)
+            fs._fault("rename", d)
+            for q in [q for q in fs.dirs if q == s or q.startswith(s + "/")]:
+                fs.dirs.discard(q)
+                fs.dirs.add(d + q[len(s):])
+            for q in [q for q in fs.files if q.startswith(s + "/")]:
+                fs.files[d + q[len(s):]] = fs.files.pop(q)
+            for fd, q in list(fs.fds.items()):
+                if q.startswith(s + "/"):
+                    fs.fds[fd] = d + q[len(s):]
+            for raw in fs.raws:
+                if raw.path.startswith(s + "/") and not raw.closed:
+                    raw.path = d + raw.path[len(s):]
+            fs.trace.append(("rename-dir", s, d))
+            return
         if s not in fs.files:
+            fs._enotdir(s, src)
             raise FileNotFoundError(errno.ENOENT, "No such file or directory", src)
         if d in fs.dirs:
             raise IsADirectoryError(errno.EISDIR, "Is a directory", dst)
         if posixpath.dirname(d) not in fs.dirs:
+            fs._enotdir(d, dst)
             raise FileNotFoundError(errno.ENOENT, "No such file or directory", dst)
         fs._fault("rename", d)
         fs.files[d] = fs.files.pop(s)
+        if s in fs.mtimes:
+            fs.mtimes[d] = fs.mtimes.pop(s)
         for fd, p in list(fs.fds.items()):
             if p == s:
                 fs.fds[fd] = d
@@ -201,6 +470,7 @@ class SimOS:
         if p in fs.dirs:
             raise IsADirectoryError(errno.EISDIR, "Is a directory", path)
         if p not in fs.files:
+            fs._enotdir(p, path)
             raise FileNotFoundError(errno.ENOENT, "No such file or directory", path)
         gone = fs.files.pop(p)
         for raw in fs.raws:
@@ -216,6 +486,9 @@ class SimOS:
     def listdir(self, path):
         p = posixpath.normpath(path)
         if p not in self.fs.dirs:
+            if p in self.fs.files:
+                raise NotADirectoryError(errno.ENOTDIR, "Not a directory", path)
+            self.fs._enotdir(p, path)
             raise FileNotFoundError(errno.ENOENT, "No such file or directory", path)
         out = set()
         for q in list(self.fs.files) + list(self.fs.dirs):
@@ -247,6 +520,10 @@ class SimFS:
         self.next_fd = 100
         self.os = SimOS(self)
         self.fault_hook = None     # fn(kind, path) -> may raise OSError
+        self.short_write_hook = None   # fn(path, nbytes) -> number of bytes the "kernel" accepts (None: all)
+        self.rawfds = {}           # fd -> SimRaw (descriptor-level API)
+        self.mtimes = {}
+        self.clock = 0
         self.raws = []             # open raw files (paths follow a rename)
         if root != "/":
             self.dirs.add(posixpath.normpath(root))
@@ -274,68 +551,87 @@ class SimFS:
         """Harness marker in the trace (e.g. ('ret', key) when a set returned)."""
         self.trace.append(("mark",) + tuple(what))
 
-    def open(self, path, mode="r", *a, **k):
+    def _touch(self, p):
+        self.clock += 1
+        self.mtimes[p] = self.clock
+
+    def _open_raw(self, path, kind, readable, writable, append=False):
+        """kind: 'r' must exist; 'w' create or truncate; 'x' create, must not exist; 'c' create if missing, keep contents;
+        't' must exist, truncate."""
+        if isinstance(path, int):
+            raw = self.rawfds.get(path)
+            if raw is None:
+                raise OSError(errno.EBADF, "Bad file descriptor")
+            return raw
+        path = _os.fspath(path)
         p = posixpath.normpath(path)
-        if mode == "rb":
-            self._y("open")
-            if p in self.dirs:
-                raise IsADirectoryError(errno.EISDIR, "Is a directory", path)
-            self._enotdir(p, path)
-            if p not in self.files:
-                raise FileNotFoundError(errno.ENOENT, "No such file or directory", path)
-            self._fault("open", p)
-            fd = self.next_fd
-            self.next_fd += 1
-            self.fds[fd] = p
-            self.trace.append(("open", p))
-            raw = SimRaw(self, p, "r", fd)
-            self.raws.append(raw)
-            return io.BufferedReader(raw)
-        if mode == "wb":
-            self._y("open")
-            if p in self.dirs:
-                raise IsADirectoryError(errno.EISDIR, "Is a directory", path)
-            parent = posixpath.dirname(p)
-            if parent not in self.dirs:
-                self._enotdir(p, path)
-                raise FileNotFoundError(errno.ENOENT, "No such file or directory", path)
+        self._y("open")
+        if p in self.dirs:
+            if kind == "x":
+                raise FileExistsError(errno.EEXIST, "File exists", path)
+            raise IsADirectoryError(errno.EISDIR, "Is a directory", path)
+        self._enotdir(p, path)
+        if len(posixpath.basename(p).encode("utf-8", "surrogateescape")) > 255:
+            raise OSError(errno.ENAMETOOLONG, "File name too long", path)
+        exists = p in self.files
+        if kind in ("r", "t") and not exists:
+            raise FileNotFoundError(errno.ENOENT, "No such file or directory", path)
+        if kind == "x" and exists:
+            raise FileExistsError(errno.EEXIST, "File exists", path)
+        if not exists and posixpath.dirname(p) not in self.dirs:
+            raise FileNotFoundError(errno.ENOENT, "No such file or directory", path)
+        if not exists:
             self._fault("creat", p)
-            if p in self.files:
-                self.files[p] = bytearray()
-                self.trace.append(("trunc", p))
-            else:
-                self.files[p] = bytearray()
-                self.trace.append(("creat", p))
-            fd = self.next_fd
-            self.next_fd += 1
-            self.fds[fd] = p
-            raw = SimRaw(self, p, "w", fd)
-            self.raws = [r for r in self.raws if not r.closed] + [raw]
-            return io.BufferedWriter(raw)
-        if mode in ("r+b", "rb+", "ab"):
-            # update in place / append: the file must exist for r+b, is created for ab; nothing is truncated
-            self._y("open")
-            if p in self.dirs:
-                raise IsADirectoryError(errno.EISDIR, "Is a directory", path)
-            self._enotdir(p, path)
-            if p not in self.files:
-                if mode != "ab":
-                    raise FileNotFoundError(errno.ENOENT, "No such file or directory", path)
-                if posixpath.dirname(p) not in self.dirs:
-                    raise FileNotFoundError(errno.ENOENT, "No such file or directory", path)
-                self._fault("creat", p)
-                self.files[p] = bytearray()
-                self.trace.append(("creat", p))
-            fd = self.next_fd
-            self.next_fd += 1
-            self.fds[fd] = p
+            self.files[p] = bytearray()
+            self.trace.append(("creat", p))
+            self._touch(p)
+        elif kind in ("w", "t"):
+            self._fault("creat", p)
+            self.files[p] = bytearray()
+            self.trace.append(("trunc", p))
+            self._touch(p)
+        else:
+            self._fault("open", p)
             self.trace.append(("open", p))
-            raw = SimRaw(self, p, "rw" if mode != "ab" else "w", fd)
-            if mode == "ab":
-                raw.pos = len(self.files[p])
-            self.raws = [r for r in self.raws if not r.closed] + [raw]
-            return io.BufferedRandom(raw) if mode != "ab" else io.BufferedWriter(raw)
-        raise ValueError(f"SimFS.open: unsupported mode {mode!r}")
+        fd = self.next_fd
+        self.next_fd += 1
+        self.fds[fd] = p
+        raw = SimRaw(self, p, "rw" if (readable and writable) else ("w" if writable else "r"), fd)
+        raw.append = append
+        if append:
+            raw.pos = len(self.files[p])
+        self.rawfds[fd] = raw
+        self.raws = [r for r in self.raws if not r.closed] + [raw]
+        return raw
+
+    def _wrap(self, raw, mode, buffering=-1, encoding=None, errors=None, newline=None):
+        binary = "b" in mode
+        if buffering == 0:
+            if not binary:
+                raise ValueError("can't have unbuffered text I/O")
+            return raw
+        size = buffering if buffering and buffering > 1 else io.DEFAULT_BUFFER_SIZE
+        if raw.readable() and raw.writable():
+            buf = io.BufferedRandom(raw, size)
+        elif raw.writable():
+            buf = io.BufferedWriter(raw, size)
+        else:
+            buf = io.BufferedReader(raw, size)
+        if binary:
+            return buf
+        return io.TextIOWrapper(buf, encoding=encoding or "utf-8", errors=errors, newline=newline, line_buffering=(buffering == 1))
+
+    def open(self, path, mode="r", buffering=-1, encoding=None, errors=None, newline=None, closefd=True, opener=None):
+        flags = set(mode) - {"b", "t"}
+        plus = "+" in flags
+        flags.discard("+")
+        if len(flags) != 1 or not flags <= set("rwax") or opener is not None:
+            UNSUPPORTED.append(f"open(mode={mode!r}, opener={opener!r})")
+            raise ValueError(f"SimFS.open: unsupported mode {mode!r}")
+        k = flags.pop()
+        raw = self._open_raw(path, {"r": "r", "w": "w", "x": "x", "a": "c"}[k], readable=(k == "r" or plus),
+                             writable=(k != "r" or plus), append=(k == "a"))
+        return self._wrap(raw, mode, buffering, encoding, errors, newline)
 
     # ---- snapshots ---------------------------------------------------------
     def snapshot(self):
@@ -350,7 +646,7 @@ class SimFS:
 
 
 # ---------------------------------------------------------------- crash images
-META = ("mkdir", "creat", "trunc", "rename", "unlink")
+META = ("mkdir", "creat", "trunc", "rename", "unlink", "rename-dir", "rmdir")
 
 
 def crash_images(base_image, trace, upto):
@@ -405,6 +701,8 @@ def crash_images(base_image, trace, upto):
                     blocked.discard(d)
                 else:
                     blocked.add(s)
+            elif k in ("rename-dir", "rmdir"):
+                UNSUPPORTED.append(f"crash model: {k}")
             elif k == "unlink":
                 if i <= last_meta:
                     cur.pop(op[1], None)
@@ -413,7 +711,18 @@ def crash_images(base_image, trace, upto):
                 p = op[1]
                 if p in blocked or p not in cur:
                     continue
+                if op[2] > len(cur[p]):
+                    cur[p].extend(b"\0" * (op[2] - len(cur[p])))
                 cur[p][op[2]:op[2] + len(op[3])] = op[3]
+            elif k == "ftrunc":
+                p = op[1]
+                if p in blocked or p not in cur:
+                    continue
+                n = op[2]
+                if n <= len(cur[p]):
+                    del cur[p][n:]
+                else:
+                    cur[p].extend(b"\0" * (n - len(cur[p])))
             elif k == "fsync":
                 p = op[1]
                 if p in blocked or p not in cur:
